@@ -32,6 +32,8 @@ pub trait Variant: 'static + Send + Sync {
     fn pk_from_bytes(b: &[u8]) -> Result<Self::Pk, String>;
     fn sig_from_bytes(b: &[u8]) -> Result<Self::Sig, String>;
     fn pk_from_sk(sk: &Self::Sk) -> Self::Pk;
+    /// the other public route from a seed to a secret key (`keygen` = this + `pk_from_sk`)
+    fn sk_from_seed(seed: [u8; 32]) -> Self::Sk;
 }
 
 pub struct V512;
@@ -82,6 +84,9 @@ macro_rules! impl_variant {
             }
             fn pk_from_sk(sk: &Self::Sk) -> Self::Pk {
                 $m::PublicKey::from_secret_key(sk)
+            }
+            fn sk_from_seed(seed: [u8; 32]) -> Self::Sk {
+                $m::SecretKey::generate_from_seed(seed)
             }
         }
     };
